@@ -389,7 +389,7 @@ Lemma handler_spec add fuel qs jq pre c qs' :
   handler add fuel qs jq pre c = Done qs' ->
   exists l, chain fuel qs jq = Done l /\ qs' = map (sel l (bump add (negb pre) c)) qs.
 Proof.
-  unfold handler. destruct (find_queue qs jq); [|discriminate].
+  unfold handler.
   apply walk_update_spec. apply bump_shape.
 Qed.
 
@@ -819,6 +819,174 @@ Proof.
   - intros j ->. apply CV. left. reflexivity.
 Qed.
 
+(** * Statement.Commit: a failing Cache.Bind is a release of that one task *)
+
+Lemma run_app fuel : forall xs ys s,
+  run fuel s (xs ++ ys) =
+  match run fuel s xs with Done s1 => run fuel s1 ys | OutOfFuel => OutOfFuel | Panic => Panic end.
+Proof.
+  induction xs as [|x xs IH]; intros ys s; cbn [app run]; [reflexivity|].
+  destruct (do_step fuel s x) as [s1| |]; [apply IH | reflexivity | reflexivity].
+Qed.
+
+Lemma do_event_steps fuel s e : do_event fuel s e = run fuel s (steps_of_event e).
+Proof.
+  destruct e as [x | | tid]; cbn [do_event steps_of_event run]; [|reflexivity|].
+  - destruct (do_step fuel s x); reflexivity.
+  - destruct (do_step fuel s (Release tid)); reflexivity.
+Qed.
+
+Theorem bind_fail_is_release :
+  forall (fuel : nat) (s : state) (tid : positive),
+    do_event fuel s (BindFail tid) = do_step fuel s (Release tid).
+Proof. reflexivity. Qed.
+
+Theorem run_events_steps :
+  forall (fuel : nat) (es : list event) (s : state),
+    run_events fuel s es = run fuel s (steps_of es).
+Proof.
+  intros fuel. induction es as [|e es IH]; intros s; [reflexivity|].
+  cbn [run_events]. unfold steps_of. cbn [flat_map]. rewrite run_app, <- do_event_steps.
+  destruct (do_event fuel s e) as [s1| |]; [apply IH | reflexivity | reflexivity].
+Qed.
+
+Lemma steps_of_app es fs : steps_of (es ++ fs) = steps_of es ++ steps_of fs.
+Proof. unfold steps_of. apply flat_map_app. Qed.
+
+(** (1) along event lists: commits, failed or not, keep the counters exact *)
+Theorem events_counters_exact :
+  forall (fuel : nat) (s0 s : state) (es : list event),
+    wf_forest (s_queues s0) = true -> counters_exact s0 ->
+    run_events fuel s0 es = Done s -> counters_exact s.
+Proof.
+  intros fuel s0 s es W E H. rewrite run_events_steps in H.
+  exact (queue_counters_exact fuel s0 s (steps_of es) W E H).
+Qed.
+
+Lemma raise_within_refl k s : raise_within k s s.
+Proof. intros q _ r _ R. exfalso. exact (Qlt_irrefl _ R). Qed.
+
+(** (2), (3) along event lists, for covered deciding jobs *)
+Theorem events_covered :
+  forall (k : bool) (fuel : nat) (s0 s s' : state) (pre : list event) (e : event),
+    wf_forest (s_queues s0) = true -> counters_exact s0 -> ledger_nonneg s0 = true ->
+    accepts_ok wf_job (steps_of (pre ++ [e])) -> accepts_ok covered (steps_of [e]) ->
+    run_events fuel s0 pre = Done s -> do_event fuel s e = Done s' ->
+    raise_within k s s'.
+Proof.
+  intros k fuel s0 s s' pre e W E N WJ CV R H.
+  rewrite run_events_steps in R. rewrite steps_of_app in WJ.
+  unfold steps_of in WJ at 2. unfold steps_of in CV. cbn [flat_map] in WJ, CV. rewrite app_nil_r in WJ, CV.
+  rewrite do_event_steps in H.
+  destruct (steps_of_event e) as [|x [|y l]] eqn:SE.
+  - cbn [run] in H. injection H as <-. apply raise_within_refl.
+  - cbn [run] in H. destruct (do_step fuel s x) as [s1| |] eqn:D; try discriminate. injection H as <-.
+    exact (C08_covered k fuel s0 s s1 (steps_of pre) x W E N WJ CV R D).
+  - destruct e; discriminate SE.
+Qed.
+
+Lemma take_entry_keeps tid : forall led e rest, take_entry tid led = Some (e, rest) ->
+  e_task e = tid /\ forall x, In x led -> e_task x <> tid -> In x rest.
+Proof.
+  induction led as [|y led IH]; intros e rest H; [discriminate|].
+  cbn in H. destruct (Pos.eqb (e_task y) tid) eqn:Q.
+  - injection H as <- <-. apply Pos.eqb_eq in Q. split; [exact Q|].
+    intros x [<- | I] NE; [contradiction | exact I].
+  - destruct (take_entry tid led) as [[z r']|] eqn:T; [|discriminate].
+    injection H as <- <-. destruct (IH _ _ eq_refl) as [Et K]. split; [exact Et|].
+    intros x [<- | I] NE; [left; reflexivity | right; apply K; assumption].
+Qed.
+
+Lemma take_entry_none tid : forall led, take_entry tid led = None -> forall x, In x led -> e_task x <> tid.
+Proof.
+  induction led as [|y led IH]; intros H x I; [destruct I|].
+  cbn in H. destruct (Pos.eqb (e_task y) tid) eqn:Q; [discriminate|].
+  destruct (take_entry tid led) as [[z r']|] eqn:T; [discriminate|].
+  destruct I as [<- | I]; [apply Pos.eqb_neq; exact Q | apply IH; [reflexivity | exact I]].
+Qed.
+
+(** a release never raises the amount charged to any queue, in either counter *)
+Lemma release_no_raise k fuel s0 s tid s' :
+  inv s0 s -> ledger_nonneg s = true -> do_step fuel s (Release tid) = Done s' ->
+  forall q, In q (s_queues s) -> forall r,
+    charged k (s_queues s') (s_ledger s') (q_id q) r <= charged k (s_queues s) (s_ledger s) (q_id q) r.
+Proof.
+  intros I N H. pose proof (step_inv _ _ _ _ _ I H) as I'.
+  destruct I as [W E S]. destruct I' as [W' E' S'].
+  assert (map skel (s_queues s') = map skel (s_queues s)) as SK by congruence.
+  intros q Iq r.
+  pose proof (wf_find _ _ W Iq) as F.
+  pose proof (find_skel _ _ (q_id q) SK) as FS. rewrite F in FS.
+  destruct (find_queue (s_queues s') (q_id q)) as [q'|] eqn:F'; [|contradiction].
+  destruct (find_queue_some _ _ _ F') as [Eid Iq'].
+  assert (val k (s_queues s) (q_id q) r == charged k (s_queues s) (s_ledger s) (q_id q) r) as V
+    by (apply val_charged; assumption).
+  assert (val k (s_queues s') (q_id q) r == charged k (s_queues s') (s_ledger s') (q_id q) r) as V'
+    by (rewrite <- Eid; apply val_charged; assumption).
+  rewrite <- V, <- V'. clear V V'. cbn [do_step] in H.
+  destruct (take_entry tid (s_ledger s)) as [[e rest]|] eqn:T.
+  - destruct (dealloc_handler fuel (s_queues s) (e_queue e) (e_preempt e) (e_charge e)) as [qs| |] eqn:D;
+      try discriminate.
+    injection H as <-. cbn [s_queues s_ledger] in *.
+    destruct (handler_spec _ _ _ _ _ _ _ D) as (l & C & ->).
+    rewrite (val_sel k false _ l _ _ _ r q F). cbn [signed].
+    assert (0 <= rget (e_charge e) r) as P.
+    { apply rq_nonneg_spec. apply (forallb_in _ _ N). destruct (take_entry_in _ _ _ _ T) as [Ie _]. exact Ie. }
+    destruct (mem (q_id q) l && active k (e_preempt e)); clear - P; lra.
+  - injection H as <-. apply Qle_refl.
+Qed.
+
+(** what a failed bind inside Commit does to the bookkeeping, after any history
+    of decisions and commits: the counters stay exact, charges stay
+    non-negative, no queue's charged amount (total or non-preemptible) goes
+    up, the failing task is no longer charged, and every other charged task --
+    bound before the failure or left allocated after it -- stays charged. *)
+Theorem bind_failure_preserves :
+  forall (fuel : nat) (s0 s s' : state) (pre : list event) (tid : positive),
+    wf_forest (s_queues s0) = true -> counters_exact s0 -> ledger_nonneg s0 = true ->
+    accepts_ok wf_job (steps_of pre) ->
+    run_events fuel s0 pre = Done s -> do_event fuel s (BindFail tid) = Done s' ->
+    wf_forest (s_queues s') = true /\ counters_exact s' /\ ledger_nonneg s' = true /\
+    (forall k q, In q (s_queues s) -> forall r,
+       charged k (s_queues s') (s_ledger s') (q_id q) r <= charged k (s_queues s) (s_ledger s) (q_id q) r) /\
+    (forall x, In x (s_ledger s) -> e_task x <> tid -> In x (s_ledger s')) /\
+    (forall x, In x (s_ledger s') -> In x (s_ledger s)) /\
+    (NoDup (map e_task (s_ledger s)) -> forall x, In x (s_ledger s') -> e_task x <> tid).
+Proof.
+  intros fuel s0 s s' pre tid W E N WJ R H.
+  rewrite run_events_steps in R. cbn [do_event] in H.
+  assert (inv s0 s0) as I0 by (constructor; [exact W | apply counters_exact_iff; exact E | reflexivity]).
+  pose proof (run_inv _ _ _ _ _ I0 R) as I.
+  pose proof (run_nonneg fuel (steps_of pre) s0 s N WJ R) as Ns.
+  pose proof (step_inv _ _ _ _ _ I H) as I'.
+  split; [exact (inv_wf _ _ I')|].
+  split; [apply counters_exact_iff; exact (inv_exact _ _ I')|].
+  split; [apply (step_nonneg fuel s (Release tid) s' Ns); [intros j Q; discriminate Q | exact H]|].
+  split; [intros k q Iq r; exact (release_no_raise k fuel s0 s tid s' I Ns H q Iq r)|].
+  cbn [do_step] in H.
+  destruct (take_entry tid (s_ledger s)) as [[e rest]|] eqn:T.
+  - destruct (dealloc_handler fuel (s_queues s) (e_queue e) (e_preempt e) (e_charge e)) as [qs| |];
+      try discriminate.
+    injection H as <-. cbn [s_ledger].
+    destruct (take_entry_keeps _ _ _ _ T) as [Et K]. destruct (take_entry_in _ _ _ _ T) as [Ie Sub].
+    split; [exact K|]. split; [exact Sub|].
+    intros ND x Ix Q.
+    (* e and x would be two ledger entries with the same task id *)
+    clear - T ND Ix Q Et. revert e rest T ND x Ix Q Et.
+    induction (s_ledger s) as [|y led IH]; intros e rest T ND x Ix Q Et; [discriminate|].
+    cbn in T. destruct (Pos.eqb (e_task y) tid) eqn:B.
+    + injection T as <- <-. cbn [map] in ND. apply NoDup_cons_iff in ND. destruct ND as [NI _].
+      apply NI. rewrite Et, <- Q. apply in_map. exact Ix.
+    + destruct (take_entry tid led) as [[z r']|] eqn:T2; [|discriminate].
+      injection T as <- <-. cbn [map] in ND. apply NoDup_cons_iff in ND. destruct ND as [_ ND].
+      destruct Ix as [<- | Ix].
+      * apply Pos.eqb_neq in B. contradiction.
+      * exact (IH _ _ eq_refl ND x Ix Q Et).
+  - injection H as <-.
+    split; [intros x Ix _; exact Ix|]. split; [intros x Ix; exact Ix|].
+    intros _ x Ix. exact (take_entry_none _ _ T x Ix).
+Qed.
+
 (** * Fuel: |queues|+1 suffices whenever the walk terminates at all *)
 
 Lemma chain_in f qs id l : chain f qs id = Done l -> forall x, In x l -> In x (map q_id qs).
@@ -1069,9 +1237,42 @@ Lemma nonvacuous :
   run 3 w_state [AdmitJob ok_job; Release 7; AdmitJob ok_job] = Done ok_after /\
   wf_forest cyclic = false /\
   is_job_over_queue_capacity 3 cyclic 1 true [ok_task] = OutOfFuel /\
-  alloc_handler 3 (s_queues w_state) 9 true rq_zero = Panic.
+  alloc_handler 3 (s_queues w_state) 9 true rq_zero = Done (s_queues w_state).
 Proof.
   split; [vm_compute; reflexivity|].
   split; [apply counters_exact_b_true; vm_compute; reflexivity|].
   repeat split; try (vm_compute; reflexivity); try (vm_compute; discriminate).
+Qed.
+
+(** non-vacuity for the commit events: a two-task job fills the leaf up to its
+    limit; the bind of its first task fails; the second task stays charged,
+    exactly the failed task's quarter GPU is free again (a quarter fits, a
+    half does not), and a successful commit changes nothing *)
+Definition q_task (id : positive) : task :=
+  {| t_id := id; t_type := Fraction; t_cpu := 0; t_memory := 0;
+     t_gpu := {| g_count := 1; g_portion := 1 # 4; g_memory := 0; g_dra := 0; g_mig := [] |} |}.
+Definition two_job : job :=
+  {| j_queue := 2; j_preempt := true; j_tasks := [(q_task 11, 100%positive); (q_task 12, 100%positive)] |}.
+Definition quarter_job : job := {| j_queue := 2; j_preempt := true; j_tasks := [(q_task 13, 100%positive)] |}.
+Definition bf_mid : state :=
+  Eval vm_compute in match run_events 3 w_state [Decide (AdmitJob two_job); BindFail 11] with Done s => s | _ => w_state end.
+Definition bf_end : state :=
+  Eval vm_compute in match run_events 3 bf_mid [Decide (AdmitJob quarter_job); CommitOk] with Done s => s | _ => w_state end.
+
+Lemma bind_fail_nonvacuous :
+  wf_job two_job = true /\ covered two_job = true /\ wf_job quarter_job = true /\ covered quarter_job = true /\
+  run_events 3 w_state [Decide (AdmitJob two_job); BindFail 11] = Done bf_mid /\
+  map e_task (s_ledger bf_mid) = [12%positive] /\
+  charged false (s_queues bf_mid) (s_ledger bf_mid) 2 GPU == 1 # 4 /\
+  charged false (s_queues bf_mid) (s_ledger bf_mid) 1 GPU == 1 # 4 /\
+  admit_job 3 (s_queues bf_mid) ok_job = Done (Refused (OverLimit 2)) /\
+  run_events 3 bf_mid [Decide (AdmitJob quarter_job); CommitOk] = Done bf_end /\
+  map e_task (s_ledger bf_end) = [13%positive; 12%positive] /\
+  charged false (s_queues bf_end) (s_ledger bf_end) 2 GPU == 1 # 2 /\
+  counters_exact bf_end /\
+  do_event 3 bf_end (BindFail 99) = Done bf_end.
+Proof.
+  assert (counters_exact bf_end) as CE by (apply counters_exact_b_true; vm_compute; reflexivity).
+  repeat (split; [vm_compute; reflexivity|]).
+  split; [exact CE | vm_compute; reflexivity].
 Qed.
